@@ -526,6 +526,11 @@ impl<H: Hooks> Gen<H> {
             wf = View::build(&self.ex.cur).wf && self.ex.alt.as_ref().map_or(true, |a| View::build(a).wf);
             if !wf {
                 self.stats.illformed_stops += 1;
+                // searching around a divergence (`--prefix`): look at the corrupted state through the
+                // iterators once more before giving up (pulls are bounded; the caller times the process)
+                if !self.cfg.prefix.is_empty() {
+                    self.observe(true)?;
+                }
                 break;
             }
             if self.cfg.profile != Profile::Alloc && self.rng.chance(1.0 / every) {
